@@ -331,6 +331,15 @@ def feature_probes(app):
         'cache_headers_absent_on_write_with_body': lambda v: (lambda r: r[0] == 200 and 'last-modified' not in r[1] and 'cache-control' not in r[1])(
             call('PUT', rp2 + '/inventories/VCPU', v, dict(INV_JSON(4, 0), resource_provider_generation=_gen(app, 'p2')))),
         'ac_group_policy': ok('GET', ac + '&group_policy=none'),
+        # a request group without resources exists from 1.36 and only together with same_subtree:
+        # every other spelling of one is refused at every version that knows the route
+        'ac_resourceless_group': ok('GET', '/allocation_candidates?resources1=VCPU:1&required2=HW_CPU_X86_AVX'
+                                           '&same_subtree=1,2&group_policy=none'),
+        'ac_orphan_required_refused': lambda v: call('GET', ac + '&required1=HW_CPU_X86_AVX', v)[0] == 400,
+        'ac_orphan_forbidden_refused': lambda v: call('GET', ac + '&required1=!CUSTOM_T2', v)[0] == 400,
+        'ac_orphan_member_of_refused': lambda v: call('GET', ac + '&member_of1=' + agg1, v)[0] == 400,
+        'ac_orphan_forbidden_agg_refused': lambda v: call('GET', ac + '&member_of1=!' + agg1, v)[0] == 400,
+        'ac_orphan_in_tree_refused': lambda v: call('GET', ac + '&in_tree1=' + U('p1'), v)[0] == 400,
         'rp_list_repeated_member_of': ok('GET', '/resource_providers?member_of=%s&member_of=%s' % (agg1, agg1)),
         'ac_granular': ok('GET', '/allocation_candidates?resources1=VCPU:1'),
         'inv_reserved_equals_total': lambda v: call('PUT', rp2 + '/inventories/VCPU', v,
